@@ -8,6 +8,8 @@ import (
 	"time"
 
 	"gvc/internal/driver"
+	"gvc/internal/geval"
+	"gvc/internal/olayer"
 	"gvc/internal/props"
 	"gvc/internal/smt"
 	"gvc/internal/vc"
@@ -21,6 +23,10 @@ func main() {
 	switch os.Args[1] {
 	case "verify":
 		cmdVerify(os.Args[2:])
+	case "paths":
+		cmdPaths(os.Args[2:])
+	case "olayer":
+		cmdOLayer(os.Args[2:])
 	case "check":
 		os.Exit(cmdCheck(os.Args[2:]))
 	default:
@@ -96,4 +102,87 @@ func cmdCheck(args []string) int {
 	defer os.RemoveAll(scratch)
 	ctx := &props.Ctx{L: l, Runner: smt.NewRunner(scratch, to), Tier: tier, Seed: seed, VerifDir: *verif, Repo: *repo}
 	return props.Run(ctx, p, "proof")
+}
+
+func cmdPaths(args []string) {
+	fs := flag.NewFlagSet("paths", flag.ExitOnError)
+	repo := fs.String("repo", "/repo", "repository")
+	fn := fs.String("func", "", "contract key of the entry function")
+	verbose := fs.Bool("v", false, "print emitted text")
+	fs.Parse(args)
+	l, err := driver.Load(*repo)
+	if err != nil {
+		fmt.Fprintln(os.Stderr, "load:", err)
+		os.Exit(2)
+	}
+	it := geval.NewInterp(l)
+	paths, err := it.Explore(*fn, it.MakeArgs(*fn), 5000)
+	if err != nil {
+		fmt.Fprintln(os.Stderr, "error:", err)
+	}
+	for i, p := range paths {
+		status := "ok"
+		if p.Unsupported != nil {
+			status = "UNSUPPORTED " + p.Unsupported.Msg + " @" + l.Fset.Position(p.Unsupported.Pos).String()
+		} else if p.Aborted != "" {
+			status = "ABORTED " + p.Aborted
+		}
+		if ok, why := p.Consistent(); !ok {
+			status = "INFEASIBLE " + why
+		}
+		var rets []string
+		for _, r := range p.Ret {
+			rets = append(rets, geval.Describe(r))
+		}
+		fmt.Printf("path %d [%s] ret=%v indent=%d events=%v :: %s\n", i, status, rets, p.Indent, p.Events, p.Name())
+		if *verbose {
+			for _, ln := range p.Out {
+				fmt.Printf("    %s%s\n", strings.Repeat("\t", ln.Indent), ln.Text)
+			}
+		}
+	}
+}
+
+func cmdOLayer(args []string) {
+	fs := flag.NewFlagSet("olayer", flag.ExitOnError)
+	repo := fs.String("repo", "/repo", "repository")
+	fn := fs.String("func", "", "contract key of the generator function")
+	out := fs.String("out", "/tmp/gvc-run", "smt output dir")
+	src := fs.Bool("src", false, "print sample schematic programs")
+	nfail := fs.Int("nfail", 1, "failing samples to print per obligation name")
+	fs.Parse(args)
+	l, err := driver.Load(*repo)
+	if err != nil {
+		fmt.Fprintln(os.Stderr, "load:", err)
+		os.Exit(2)
+	}
+	b := olayer.NewBuilder(l.Contracts)
+	rep, err := olayer.RunEntry(l, b, *fn, olayer.RunOpts{})
+	if err != nil {
+		fmt.Fprintln(os.Stderr, "error:", err)
+		os.Exit(2)
+	}
+	rep.Solve(smt.NewRunner(*out, 10*time.Second))
+	fmt.Printf("%s: %d paths (%d ok, %d error, %d infeasible)\n", rep.Entry, rep.Paths, rep.OkPaths, rep.ErrPaths, rep.Infeasible)
+	if *src {
+		for _, s := range rep.Samples {
+			fmt.Println("-----\n" + s)
+		}
+	}
+	fmt.Print(driver.Summary(rep.Results))
+	seen := map[string]int{}
+	for _, r := range rep.Results {
+		if r.Status != "unsat" {
+			seen[r.Name]++
+			if seen[r.Name] > *nfail {
+				continue
+			}
+			fmt.Println("FAILED", r.ID, r.Status)
+			out := r.Output
+			if len(out) > 2500 {
+				out = out[:2500] + "..."
+			}
+			fmt.Println(out)
+		}
+	}
 }
